@@ -332,7 +332,16 @@ class PrettyContext:
         return id(value) in self.visited
 
 
+class _InvalidPrinterResult(ValueError):
+    """A pretty printer returned something that is not a str or Doc."""
+
+
 def _warn_about_bad_printer(pretty_fn, value, exc):
+    if isinstance(exc, _InvalidPrinterResult):
+        # A misbehaving printer further down is a programming error
+        # that must reach the caller; it is not a failure of pretty_fn.
+        raise exc
+
     fnname = '{}.{}'.format(
         pretty_fn.__module__,
         pretty_fn.__qualname__
@@ -404,7 +413,7 @@ def _run_pretty(pretty_fn, value, ctx, trailing_comment=None):
             pretty_fn.__module__,
             pretty_fn.__qualname__
         )
-        raise ValueError(
+        raise _InvalidPrinterResult(
             'Functions decorated with register_pretty must return '
             'an instance of str or Doc. {} returned '
             '{} instead.'.format(fnname, repr(doc))
